@@ -96,7 +96,7 @@ Verdict(ev) ==
             IF ~d.amb /\ ev.out # d.outs THEN "demux." \o DiffField(d.outs, ev.out)
             ELSE IF ~r.amb /\ ev.outrc # r.outs THEN "demux." \o DiffField(r.outs, ev.outrc)
             ELSE IF ~d.amb /\ ~r.amb /\ ev.outrc # Flip(ev.out) THEN "symmetry"
-            ELSE IF ev.sc.has = 1 /\ ~d.amb
+            ELSE IF ev.sc.has = 1 /\ ev.sc.free = 0 /\ ~d.amb
                     /\ \E i \in DOMAIN ev.sc.amps : IsCleanAmp(sheet, ev.sc.amps[i]) /\ ~PlantedFound(sheet, ev.sc.amps[i], d.outs)
                  THEN "spec.planted"
             ELSE "ok"
